@@ -294,7 +294,8 @@ fn update_ops(mut commands: Commands, mut pending: ResMut<PendingOps>, mut slots
                 }
             }
             "ODespawn" => {
-                if let Some(id) = slots.ents.remove(&a[0].int()) {
+                // the slot stays mapped until the closing events have been reported
+                if let Some(&id) = slots.ents.get(&a[0].int()) {
                     commands.entity(id).despawn();
                 }
             }
